@@ -4,6 +4,7 @@ import (
 	"fmt"
 	"sort"
 	"strconv"
+	"strings"
 	"time"
 )
 
@@ -81,7 +82,9 @@ func vC18Mutate(r *vRand, a *vC18Tok, cfg string) {
 		a.alg = r.pick([]string{"rs256", "", "RS999", "RS256 ", "RSA", "None", "NONE"})
 	case 7:
 		// signed by another configured issuer's key or by a key the proxy does not know
-		a.signer = a.alg + ":" + r.pick([]string{"k0", "k1", "k2"})
+		// (the method of the signer so far, not the header's alg: an earlier mutation may have made that a string
+		// with a space, which is not a field of the op line)
+		a.signer = strings.SplitN(a.signer, ":", 2)[0] + ":" + r.pick([]string{"k0", "k1", "k2"})
 	case 8:
 		a.iss = r.pick([]string{"baz", "", "Foo", "foo ", "bar", "foo"})
 	case 9:
